@@ -95,7 +95,7 @@ def callee_binarize(eng, st, args, kw, node):
     return npspec.materialise(eng, st, core.Mat(m.shape, lambda x, y: z3.If(core.to_z3(m.fn(x, y), core.REAL) != 0, z3.RealVal(1), z3.RealVal(0)), core.REAL))
 
 
-def callee_from_clauses(name, params, requires, ensures, results, ghosts=None, rebinds=None):
+def callee_from_clauses(name, params, requires, ensures, results, ghosts=None, rebinds=None, fresh_ghosts=None):
     """Callee stub generated from contract clauses (the same clause texts that the callee's own contract proves): at the call site the
     parameters are bound to the actual arguments, every `requires` clause becomes an obligation of the caller, the results are fresh
     values of the declared kinds and exactly the `ensures` clauses are assumed about them (`result(k)` refers to them).
@@ -127,6 +127,8 @@ def callee_from_clauses(name, params, requires, ensures, results, ghosts=None, r
                     res.append(core.alloc(st, 2, core.fresh('res_' + name, core.A2R), shp, core.REAL))
                 elif kind == 'bmat':
                     res.append(core.alloc(st, 2, core.fresh('res_' + name, z3.ArraySort(core.INT, z3.ArraySort(core.INT, core.BOOL))), shp, core.BOOL))
+                elif kind == 'vec':
+                    res.append(core.alloc(st, 1, core.fresh('res_' + name, core.A1R), shp, core.REAL))
                 elif kind == 'imat':
                     res.append(core.alloc(st, 2, core.fresh('res_' + name, core.A2I), shp, core.INT))
                 elif kind == 'int':
@@ -136,10 +138,18 @@ def callee_from_clauses(name, params, requires, ensures, results, ghosts=None, r
                 else:
                     raise ContractError('result kind %s' % kind)
             st.ghost['_result'] = core.TupleV(res) if len(res) != 1 else res[0]
+            for gname in (fresh_ghosts or ()):
+                # ghost results of the callee (e.g. the number of distinct labels found by np.unique): a fresh integer per call
+                st.ghost[gname] = core.fresh('gh_%s_%s' % (name, gname), core.INT)
+                st.ghost['%s__%s' % (name, gname)] = st.ghost[gname]
             for nm, (kind, *dims) in (rebinds or {}).items():
-                if kind != 'mat':
+                shp_ = tuple(eng.ev_str(d, st) for d in dims)
+                if kind == 'mat':
+                    st.env[nm] = core.alloc(st, 2, core.fresh('loc_%s_%s' % (name, nm), core.A2R), shp_, core.REAL)
+                elif kind == 'ivec':
+                    st.env[nm] = core.alloc(st, 1, core.fresh('loc_%s_%s' % (name, nm), core.A1I), shp_, core.INT)
+                else:
                     raise ContractError('rebind kind %s' % kind)
-                st.env[nm] = core.alloc(st, 2, core.fresh('loc_%s_%s' % (name, nm), core.A2R), tuple(eng.ev_str(d, st) for d in dims), core.REAL)
                 st.ghost['%s__%s' % (name, nm)] = st.env[nm]       # the caller's ghost code may name the callee's local (lemma instances about it)
             for cname, src in ensures:
                 st.pc.append(core.truth(eng.ev_str(src, st)))
@@ -148,7 +158,7 @@ def callee_from_clauses(name, params, requires, ensures, results, ghosts=None, r
             for k in allnames:
                 st.env.pop(k, None)
             st.env.update(saved_env)
-            keep = {k: v for k, v in st.ghost.items() if (k not in saved_ghost or k.startswith(name + '__')) and k not in (ghosts or {}) and k not in ('_result', '_stub_args')}
+            keep = {k: v for k, v in st.ghost.items() if (k not in saved_ghost or k.startswith(name + '__')) and k not in (ghosts or {}) and k not in ('_result', '_stub_args') and k not in (fresh_ghosts or ())}
             st.ghost = dict(saved_ghost)
             st.ghost.update(keep)
     return stub
